@@ -537,7 +537,7 @@ func runHistory(base string, hidx int, seed int64, hook bool) {
 func main() {
 	vlib.Main("C13", "exploration", 10*time.Minute, func(r *vlib.Run) {
 		run = r
-		r.Rule("entry files now and then moved elsewhere with a symbolic link left in place (hooked clock); cache directories whose names contain pattern / format metacharacters in 4 of 7 histories; histories: 1-5 action ids, 1-3 rounds of (2-11 stores/lookups of random kinds, then Trim) with time steps drawn from a boundary-heavy set (1ns, 1h-1ns, 1h, 1h+1ns, 5d-1ns, 5d, 5d+1ns, 5d+1h-1ns, 5d+1h, 5d+1h+1ns, days, months), 19 trim.txt variants, plus a record that can be neither read nor rewritten (a non-empty directory, a dangling symbolic link) (absent, empty, garbage, now, now-23h59m59s, now-24h, now+30m, now+2h, huge, negative, ...), non-entry files 400 days old in and beside the sub-directories. Hooked clock (VerifSetNow) for exact boundaries; a second workload with the real clock and ages simulated through mtimes (margins of 10 min). Every history has its own PRNG stream; non-trivial = history with at least one Trim call.")
+		r.Rule("entry files now and then moved elsewhere with a symbolic link left in place (hooked clock); cache directories whose names contain pattern / format metacharacters in 4 of 7 histories; histories: 1-5 action ids, 1-3 rounds of (2-11 stores/lookups of random kinds, then Trim) with time steps drawn from a boundary-heavy set (1ns, 1h-1ns, 1h, 1h+1ns, 5d-1ns, 5d, 5d+1ns, 5d+1h-1ns, 5d+1h, 5d+1h+1ns, days, months), 19 trim.txt variants, plus a record that can be neither read nor rewritten (a non-empty directory, a dangling symbolic link) (absent, empty, garbage, now, now-23h59m59s, now-24h, now+30m, now+2h, huge, negative, ...), non-entry files 400 days old in and beside the sub-directories. Hooked clock (VerifSetNow) for exact boundaries; every third hooked history on the clock of a zone with daylight saving time (New York, Berlin, Lord Howe, Santiago), started within five days before a 2024 transition and with steps shaped so that the five-day window of its first Trim contains the transition; a second workload with the real clock and ages simulated through mtimes (margins of 10 min). Every history has its own PRNG stream; non-trivial = history with at least one Trim call.")
 		r.Assume("a file's last use is the latest store of it or successful lookup touching it (Get: index entry; GetBytes/GetFile/OutputFile: output file too); entries with last use in [5d, 5d+1h] are don't-care; a trim.txt up to one hour in the future may or may not suppress the trim")
 		W := runtime.NumCPU()
 		base := vlib.Scratch()
